@@ -16,7 +16,7 @@ from sa.flow import Expander, flow_of
 from sa.model import src, walk_no_nested, unmangle
 from sa.pat import match, same
 from sa.types import base
-from . import sched
+from . import sched, sched_dep
 from .sched import BOTH, FWD, BWD, PassShape
 from .c02 import VALIDATORS_FWD
 from .c09 import VALIDATORS_BWD
@@ -96,7 +96,9 @@ def input_untouched(ctx, o, eff: Effects):
     for S, vs in ((FWD, VALIDATORS_FWD), (BWD, VALIDATORS_BWD)):
         calc = prog.func(S['calc'])
         inp = calc.params[1]
-        vnames = {prog.func(v).name: prog.func(v) for v in vs}
+        vres = [sched_dep.resolve_validator(ctx, S, v) for v in vs]
+        vnames = {vf.name: vf for vf in vres if not isinstance(vf, sched_dep.AsValidator)}
+        inl = [vf for vf in vres if isinstance(vf, sched_dep.AsValidator)]
         for n in walk_no_nested(calc.node):
             if isinstance(n, ast.Name) and n.id == inp and isinstance(n.ctx, ast.Load):
                 par = _parent_of(calc.node, n)
@@ -115,14 +117,18 @@ def input_untouched(ctx, o, eff: Effects):
                 if isinstance(par, ast.Attribute) and par.attr == 'clone':
                     o.site(calc, par, f"{inp}.clone()")
                     continue
+                if isinstance(par, ast.Attribute) and par.attr == 'tasks' and any(any(x is par for x in ast.walk(v_.loop.iter)) for v_ in inl):
+                    o.site(calc, par, f"{inp}.tasks scanned read-only by the future-end check written in calc")
+                    continue
                 if isinstance(par, ast.FormattedValue) or (isinstance(par, ast.Compare) and all(isinstance(op, (ast.Is, ast.IsNot)) for op in par.ops)):
                     o.site(calc, par, f"{inp} formatted / compared by identity: reads only")
                     continue
                 o.refute(calc, n, par if par is not None else n, f"the input WBS is used as `{src(par) if par is not None else inp}`: only validation and clone() are allowed")
         if isinstance(n, ast.Name):
             pass
-        for v in vs:
-            vf = prog.func(v)
+        for vf in vres:
+            if isinstance(vf, sched_dep.AsValidator):
+                continue        # its loop body was checked to contain tests and raises only
             p0 = vf.params[-1] if vf.kind != 'method' else vf.params[1]
             bad = [k for k in eff.writes_star(vf) if k[1] != 'fresh' and ('param:' + p0 in k[1] or k[1].startswith('mixed') or k[1] == 'unknown')]
             bad = [k for k in bad if not _bookkeeping_container(prog, eff, vf, k)]
@@ -382,10 +388,12 @@ def clock_sites(ctx, o, eff: Effects):
         for n in walk_no_nested(f.node):
             if _is_clock(n):
                 found.setdefault(f.qual, []).append(n)
+    av = sched_dep.resolve_validator(ctx, FWD, sched_dep.FUTURE_END) if sched_dep.FUTURE_END not in prog.funcs else None
+    av_clocks = [id(x) for x in av.clocks] if isinstance(av, sched_dep.AsValidator) else []
     for q, ns in found.items():
         f = prog.funcs[q]
         for n in ns:
-            if q in allowed:
+            if q in allowed or id(n) in av_clocks:
                 o.site(f, n, "clock read (enumerated)")
             else:
                 o.refute(f, n, n, f"clock read in {q}: the {'backward ' if 'Backward' in q else ''}result becomes clock dependent")
@@ -498,8 +506,8 @@ def clock_guard(ctx, o):
             o.refute(f, par, construct, f"`{src(par)[:70]}`: no operand is bounded below by the project start, so a clock before the project "
                                   f"start still shows in the result (user-fixed earlier start; same-day non-midnight start)")
     # the future-end validator compares user dates with the clock
-    vf = prog.func('schedule.ForwardScheduler.__check_no_end_dates_in_future')
-    for n in walk_no_nested(vf.node):
+    vf = sched_dep.resolve_validator(ctx, FWD, sched_dep.FUTURE_END)
+    for n in (vf.clocks[:1] if isinstance(vf, sched_dep.AsValidator) else walk_no_nested(vf.node)):
         if _is_clock(n):
             o.refute(vf, n, 'user-fixed end compared with the clock', "a user-fixed end between two clock values (both before the project start) is rejected for the earlier "
                                "clock and accepted for the later one")
